@@ -75,8 +75,8 @@ def queries(tier):
     # (the Elias array encoders are not run under self-composition: the query does not finish in 40 minutes; they write only
     #  through varintBitWriterInit's memset + OR-ed bits, and C02/C03/C16 decide their output and metadata)
     qs.append(tq("group-delta", {"CODEC": 7}))
+    qs.append(tq("pfor", {"CODEC": 2}, to=2400))
     if not q:
-        qs.append(tq("pfor", {"CODEC": 2}, to=2400))
         qs.append(tq("dict", {"CODEC": 6}, mem=28, extra=["--no-array-field-sensitivity"], to=2400))
         for p, m in [(p, m) for p in range(4) for m in range(3)]:
             qs.append(tq("float-p%d-m%d" % (p, m), {"CODEC": 8, "FPREC": p, "FMODE": m}, uf=FL, weight=8, mem=40, to=3600,
